@@ -5,6 +5,7 @@ import Driver.HistCmd
 import Driver.UHistCmd
 import Driver.EventsCmd
 import Driver.GennyCmd
+import Driver.CsvCmd
 open Driver
 
 def dispatch (line : String) : String :=
@@ -16,6 +17,7 @@ def dispatch (line : String) : String :=
     | "events" => eventsCmd rest
     | "perf-rt" => perfRtCmd rest
     | "genny" => gennyCmd rest
+    | "csv" => csvCmd rest
     | "hist" => histCmd rest
     | "uhist" => uhistCmd rest
     | "read" => readCmd rest
